@@ -96,7 +96,7 @@ CLAIMS = {
               'MATCH exact scan first-hit and #N/A exits, wildcard roles and a constant table of wildcard lookups, MATCH +-1 on all 7 order types of x against three sorted symbolic items, text and fractional positions, alternatives of CHOOSE that are not addressed play no part. Arrays longer than the instance shapes NOT decided.',
               'guard dominance with integer interval facts + path rules',
               'DESIGN.md 5 C18'),
-    'C19': _c('Label regex language equals the label language (DFA over a 6-class alphabet with Python $ semantics; undecided when extract_label uses no regular expression), 30 constant labels and non-labels (other scripts' letters and digits) through extract_label / to_label and 18 column indices up to seven letters through both converters, capture-group roles, '
+    'C19': _c('Label regex language equals the label language (DFA over a 6-class alphabet with Python $ semantics; undecided when extract_label uses no regular expression), 30 constant labels and non-labels (letters and digits of other scripts) through extract_label / to_label and 18 column indices up to seven letters through both converters, capture-group roles, '
               'alphabet constant, exact integer arithmetic in the column and row converters, digit and carry of one step from the same dividend, row converters affine inverses, recomposition order, loop termination, no shared mutable result (mutable default / empty module-level container handed out), the cell and range callbacks build each Cell from the label of the reference at hand (no recalled object, no consulted limit that a constructor writes). Column converters mutually '
               'inverse (bijective base 26) NOT decided.',
               'regex-AST to DFA language equality + affine forms + dataflow roles',
